@@ -43,6 +43,7 @@ def run(tier, seed):
         for k in (1, 2):
             ri.append((sp, dict(o, resume_from=k)))
         ri.append((sp, dict(o, presim=1)))
+        ri.append((sp, dict(o, backward=True, rev=True)))
     col.merge(stepcheck.explore(ri, MONS, 0, 0, seed=seed))
     lit = [(sp, {"rule": "TSLACK", "max_time": 20}) for sp in F.unsorted_absence_specs() + F.same_name_task_specs()]
     col.merge(stepcheck.explore(lit, MONS, 0, 0, seed=seed))
